@@ -476,6 +476,12 @@ def run(ctx, out, tier):
 
     shared.sh_err(ctx, out, ctx.validator_bodies(NAME), floor=10)
     shared.sh_state(ctx, out, NAME)
+    shared.sh_visit(ctx, out, NAME)
+    # the validator's diagnostics survive the merge with other validators' (append-only), and the
+    # attribute text reaches it unmodified (comment delimiters are blanked exactly once)
+    shared.sh_merge(ctx, out, ctx.reachable_bodies())
+    from rules.C03 import check_blank
+    check_blank(ctx, out)
     return meta()
 
 
